@@ -5,7 +5,7 @@ from gen import G, MNEMS, REG64, REG32, ALLREGS, NOOP_MNEMS
 LIT_MNEMS = ["mov", "ov", "mo", "add", "sub", "push", "pop", "call", "ret", "jmp", "lea", "xor", "nop", "cmp",
              "j", "movq", "e", "test", "and", "or"]
 LIT_OPS = ["rax", "%rax", "eax", "ax", "%rbx", "rbx", "rcx", "%ecx", "r8", "%r8", "%r8d", "0x10", "0x1", "10", "0",
-           "rsp", "%rsp", "rbp", "rdi", "%rsi", "al", "0xff", "x", "%"]
+           "rsp", "%rsp", "rbp", "rdi", "%rsi", "al", "0xff", "x", "%", 0, 1, 10, 8]
 
 
 def times_obj(g, allow_zero=True):
